@@ -363,6 +363,16 @@ func (r *c09Run) observeAll(op string, full bool) map[int]string {
 					map[string]any{"handle": i, "first": h.firstStr, "after_op": op})
 			}
 		}
+		if full && !h.isMap {
+			// equality with an independent copy of the first observation, BEFORE anything materialises the list (a size hint
+			// that is wrong makes a lazy list unequal to its own items until it is evaluated)
+			pre, errPre := c09Eval(c09Prog("a0=a1", "a0", "a1"), h.v, c09FirstCopy(h))
+			if b, ok := pre.(value.Bool); errPre == nil && ok && !bool(b) && !strings.Contains(h.firstCanon, "!") {
+				r.violation(r.sigFor(h, op), fmt.Sprintf("handle h%d (created by %s) is not equal to the list of the items it shows (%s) before it is evaluated", i, h.prov, h.firstCanon),
+					map[string]any{"handle": i, "after_op": op})
+				return obs
+			}
+		}
 		if full {
 			sz, err := c09Eval(c09Prog("a0.size()", "a0"), h.v)
 			if !strings.Contains(h.firstCanon, "!") {
@@ -1458,6 +1468,12 @@ var c09Corpus = [][]string{
 	{"lit i5,i6,i7,i8,i9", "flk map h0", "flkeval h1", "size h1", "app h1 i1", "obs"},
 	{"num 6", "flk number h0", "flkeval h1", "idx h1 4", "rev h1", "app h1 i2", "obs"},
 	{"lit i1,i2,i3,i4", "flk map h0", "flk number h1", "flkeval h2", "flkeval h1", "eval h2", "obs"},
+	// reading an entry does not move it: maps with more entries than any lookup heuristic would leave alone
+	{"mlit a=i1,b=i2,c=i3,d=i4,e=i5,f=i6", "mget h0 f", "mget h0 e", "put h0 g i7", "mget h1 f", "mget h1 d", "obs"},
+	{"mlit k0=i0,k1=i1,k2=i2,k3=i3,k4=i4,k5=i5,k6=i6,k7=i7,k8=i8,k9=i9,k10=i10", "mget h0 k10", "mget h0 k9", "mget h0 k4", "mlit z=i1", "mrg h0 h1", "mget h2 k8", "obs"},
+	// a stage that cuts a list of unknown size: top with more than there is
+	{"lit i0,i1", "acc all h0", "top 5 h1", "obs", "top 5 h1", "size h2", "obs"},
+	{"num 10", "acc ge:3 h0", "top 9 h1", "skip 0 h2", "obs"},
 	// maps of one function-map factory: a failed lookup on one of them changes neither it nor its siblings
 	{"fmap 1", "fmap 2", "mmiss h0", "mmiss h1", "obs", "mlit q=i1", "mrg h0 h2", "mmiss h3", "obs"},
 	// a replaced map knows only the keys of the original (the model once looked into the replacement first)
